@@ -9,3 +9,5 @@ func allBits(b *setz.Bits) []uint {
 	b.Range(func(v uint) bool { out = append(out, v); return true })
 	return out
 }
+
+func heldBits(b *setz.Bits) func(func(uint) bool) { return nil }
